@@ -205,7 +205,9 @@ def token_expr(e, cx):
         return f"(T{name} K_{m2.group(1)})"
     m2 = re.fullmatch(r'b"((?:[^"\\]|\\.)*)"', arg)
     if not m2: raise TranslateError(f"byte-string argument: {arg!r}")
-    return f"(T{name} {cx.interner.id(m2.group(1))}%N)"
+    bs = m2.group(1).encode("utf-8").decode("unicode_escape").encode("latin-1")
+    cx.interner.id(m2.group(1))
+    return f"(T{name} [" + "; ".join(str(b) for b in bs) + "]%N)"
 
 
 def parse_action_fns(proc_src, cx):
@@ -473,7 +475,7 @@ def main():
         if k not in knames: raise TranslateError(f"SyntaxKind::{k} not found in the parser")
         out.append(f"Definition K_{k} : N := {knames.index(k)}.")
     if interner.ids:
-        out.append("(* interned byte strings: " + ", ".join(f"{v}={k!r}" for k, v in interner.ids.items()) + " *)")
+        out.append("(* byte strings used: " + ", ".join(repr(k).replace(chr(34), chr(39)) for k in interner.ids) + " *)")
     out.append("")
     names = []
     for n, (fn, pt, rules) in enumerate(stages, 1):
